@@ -40,7 +40,11 @@ VALUES = [I(-1), I(0), I(1), I(2), I(3), F(0), F(15), F(-25), F(20), F(25), F(-5
           M([("a", B(True)), ("b", I(0)), ("c", I(5))]),
           M([("a", V("nil"))]), M([("a", V("nil")), ("b", I(2))], "sym"),
           M([("a", F(20))], "json"), M([("a", I(2)), ("b", F(10))]), V("vec", c=[F(10), I(2)]),      # numbers of the OTHER kind than an enumeration spells          # a key that is PRESENT and bound to ()
-          V("fun"), V("bytes", 0, ""), V("bytes", 2, "ab")]
+          V("fun"), V("bytes", 0, ""), V("bytes", 2, "ab"),
+          # arrays whose elements are of different kinds in both orders (an element is judged on its own, whatever came before)
+          V("vec", c=[B(True), V("sym", 0, "foo")]), V("vec", c=[V("sym", 0, "foo"), B(True)]), V("vec", c=[B(True), B(False)]),
+          V("vec", c=[I(1), B(False), V("sym", 0, "foo"), I(2)]), V("vec", c=[I(1), F(15)]), V("vec", c=[F(15), I(1)]), V("vec", c=[S("a"), I(1)]),
+          V("vec", c=[S("a"), S("true")]), V("vec", c=[I(2), I(-1)])]
 
 
 def rv(v):
@@ -124,7 +128,9 @@ def atoms():
         a += [C(op, n=n) for n in (0, 2)]
     for op in ("len", "lengt", "lengte", "lenlt", "lenlte"):
         a += [C(op, n=n) for n in (0, 1, 2)]
-    a += [C("of", cs=[TN("string")]), C("of", cs=[TN("int"), TN("string")]), C("of"), C("of", cs=[TY("int", C("gt", n=0))])]
+    a += [C("of", cs=[TN("string")]), C("of", cs=[TN("int"), TN("string")]), C("of"), C("of", cs=[TY("int", C("gt", n=0))]),
+          C("of", cs=[TN("bool")]), C("of", cs=[TN("bool"), TN("int")]), C("of", cs=[TN("int")]), C("of", cs=[TN("float")]), C("of", cs=[TN("number")]), C("of", cs=[TN("float"), TN("string")]),
+          C("of", cs=[TN("any")])]
     a += [C("haskey", k="a"), C("haskey", k="a", cs=[TN("int")]), C("haskey", k="a", cs=[TN("string"), TN("int")]), C("haskey", k="z", cs=[TN("any")]),
           C("mayhavekey", k="b", cs=[TN("int")]), C("mayhavekey", k="a", cs=[TN("string")])]
     a += [C("haskey", k="a", cs=[C("in", vs=[I(1), I(2)])]), C("mayhavekey", k="a", cs=[C("in", vs=[F(10), F(20)])]), C("of", cs=[C("in", vs=[I(1), I(2)])]),
